@@ -2,6 +2,7 @@
 //! line per case ("<channel> key=value ...") for the model driver.
 mod art;
 mod flags;
+mod prank;
 mod probe;
 mod util;
 
@@ -36,6 +37,7 @@ fn main() {
     match args[1].as_str() {
         "art" => art::run(seed, count, maxn, &mode, &mut out),
         "flags" => flags::run(seed, count, &mut out),
+        "prank" => prank::run(seed, count, maxn, &mut out),
         "probe" => probe::run(&mode),
         other => {
             eprintln!("unknown channel {other}");
